@@ -204,7 +204,9 @@ def translation_validate(Q, cfile, work, k, seed):
         except subprocess.TimeoutExpired:
             res['skipped_blocking'] += 1; continue
         if 'ASSUME-FAIL' in g.stdout: res['skipped_assume'] += 1; continue
-        if re.search(r'DONE \w+ 0', g.stdout) or 'self-deadlock' in g.stdout: res['skipped_blocking'] += 1; continue
+        if re.search(r'DONE \w+ 0', g.stdout) or re.search(r'BLOCKS \w+ [1-9]', g.stdout) or 'self-deadlock' in g.stdout:
+            # a thread had to wait under the greedy schedule: run-to-completion of the real threads is impossible for this program
+            res['skipped_blocking'] += k - i; res['vectors'] += k - i - 1; break
         try:
             h = subprocess.run([real] + args, stdout=subprocess.PIPE, stderr=subprocess.STDOUT, text=True, env=env, timeout=20)
         except subprocess.TimeoutExpired:
